@@ -192,6 +192,11 @@ def _call(ctx, qp, UND, op, name, info, flagname, accessor, fn):
         extra = f"{type(val).__name__}: {str(val)[:200]}"
         _viol(ctx, "flag.outcome", name, f"{flagname} is True but {accessor}() raised {extra}", info, f"flag-true-raises:{accessor}:{name}:{type(val).__name__}")
         return None, False
+    if not flag and outcome == "value" and name.startswith("Tmp"):
+        # private helper classes (e.g. special_unitary.TmpPauliRot, not exported by any public namespace) deliberately hide a
+        # representation from the decomposition machinery; the statement quantifies over the public operator APIs only
+        ctx.note_add("observations_outside_statement", f"{name}: {flagname} False but {accessor}() returns (private helper class)")
+        return val, True
     if not flag and outcome == "value":
         _viol(ctx, "flag.outcome", name, f"{flagname} is False but {accessor}() returned a value instead of raising {exp_err.__name__}", info,
               f"flag-false-returns:{accessor}:{name}")
